@@ -146,6 +146,7 @@ type FuncSpec struct {
 	NoSafetyKinds []string // safety kinds not checked in this function (documented in the contract)
 	UseLemmas []string // lemmas / global invariants assumed in this function's proof
 	Establishes []string // global invariants this (init) function proves on return
+	Defines  []Clause // definitional equations for ghost functions of a freshly constructed result (assumed at return; see DESIGN)
 	Implements []string // interface-method contracts whose ensures this function must also satisfy
 	Split []Expr // case split over the parameters: every obligation is discharged once per case (and once for 'none')
 	Unroll   map[int]int
@@ -181,6 +182,9 @@ type Lemma struct {
 	Down   bool     // downward induction (from Hi to Lo)
 	Uses   []Expr   // instances of other lemmas to assume: name(args)
 	Triggers [][]Expr // patterns when the lemma is used as a quantified fact
+	Measure Expr // induction on the value of this expression (the induction variable is then implicit)
+	Generalizing []string // parameters universally quantified in the induction hypothesis
+	Hints []Expr // boolean facts (e.g. ground instances of definitions) proved first, then assumed
 	Tags   []string
 	File   string
 	Line   int
@@ -204,6 +208,18 @@ type GlobalInv struct {
 	Line int
 }
 
+// TypeInv is an invariant of every object of a struct type, established by
+// its only constructor and assumed for parameters of that type elsewhere.
+type TypeInv struct {
+	Type  string // e.g. *chain
+	Var   string
+	Ctor  string // the only function that allocates the type
+	E     Expr
+	Text  string
+	File  string
+	Line  int
+}
+
 type File struct {
 	Funcs     []*FuncSpec
 	SpecFns   []*SpecFn
@@ -212,6 +228,7 @@ type File struct {
 	Ghosts    []*GhostField
 	Sentinels []string // immutable, pairwise distinct, non-nil global values (qualified names)
 	Immutable []string // globals never written outside init (checked by scan)
+	TypeInvs []*TypeInv
 	ConstFields []string // struct fields written only while constructing a fresh object (scan)
 	OnlyCalledFrom [][2]string // (callee name, caller): mechanical call-site scan
 	ConstTables []string // globals whose composite-literal initialiser is read from the source
@@ -229,5 +246,6 @@ func (f *File) Merge(g *File) {
 	f.ConstTables = append(f.ConstTables, g.ConstTables...)
 	f.OnlyCalledFrom = append(f.OnlyCalledFrom, g.OnlyCalledFrom...)
 	f.ConstFields = append(f.ConstFields, g.ConstFields...)
+	f.TypeInvs = append(f.TypeInvs, g.TypeInvs...)
 	f.GlobalInvs = append(f.GlobalInvs, g.GlobalInvs...)
 }
